@@ -745,4 +745,61 @@ example : ((⟨0, 0, 1, 1500, -20, 101325, false⟩ : Chart ℝ).rhVertices 0.03
   unfold Chart.rhVertices humidRatioFromDbRh
   norm_num [Chart.toC]
 
+/-! ### Round 6: positional results keep one entry per state (no entry is left out, merged or moved)
+
+`data_points` (and the hourly profiles of a design day) are *positional*: entry `i` belongs to state `i` of the
+data.  The model has no access to the chart's limits in `dataPoints` (the structure `Chart` does not even carry the
+maximum temperature), so the statements below hold for data that do not fit on the chart as well. -/
+
+/-- `data_points` has exactly one entry per state of the data — whatever the temperatures are (on the chart or not). -/
+theorem C09_data_points_length (c : Chart ℝ) (ts rhs : List ℝ) (h : ts.length = rhs.length) :
+    (c.dataPoints ts rhs).length = ts.length := by
+  unfold Chart.dataPoints
+  simp [h]
+
+/-- Entry `i` of `data_points` is the plotted point of state `i` (its temperature in the chart's unit). -/
+theorem C09_data_points_aligned (c : Chart ℝ) (ts rhs : List ℝ) (i : Nat) (h1 : i < ts.length)
+    (h2 : i < rhs.length) :
+    (c.dataPoints ts rhs)[i]? = some (c.plotPoint (c.ofC ts[i]) rhs[i]) := by
+  unfold Chart.dataPoints
+  have hz : (ts.zip rhs)[i]? = some (ts[i], rhs[i]) :=
+    List.getElem?_zip_eq_some.mpr ⟨List.getElem?_eq_getElem h1, List.getElem?_eq_getElem h2⟩
+  rw [List.getElem?_map, hz]
+  simp only [Option.map_some]
+  rw [C09_chart_data_eq_plot]
+  rfl
+
+/-- Entry `i` converts back through the temperature axis to the temperature of state `i` exactly, for any
+    temperature (no condition that it lies between the chart's limits). -/
+theorem C09_data_points_invert_t (c : Chart ℝ) (ts rhs : List ℝ) (i : Nat) (h1 : i < ts.length)
+    (h2 : i < rhs.length) (hx : c.xDim ≠ 0) :
+    ∃ q, (c.dataPoints ts rhs)[i]? = some q ∧ c.minT + (q.1 - c.baseX) / c.xDim = c.ofC ts[i] := by
+  refine ⟨_, C09_data_points_aligned c ts rhs i h1 h2, ?_⟩
+  unfold Chart.plotPoint Chart.tX
+  simp only []
+  field_simp
+  ring
+
+/-- Further states (for instance states that do not fit on the chart) put before or after the data do not
+    change the entries of the others: the points of `ts₁ ++ ts₂` are those of `ts₁` followed by those of `ts₂`. -/
+theorem C09_data_points_append (c : Chart ℝ) (t1 t2 r1 r2 : List ℝ) (h : t1.length = r1.length) :
+    c.dataPoints (t1 ++ t2) (r1 ++ r2) = c.dataPoints t1 r1 ++ c.dataPoints t2 r2 := by
+  unfold Chart.dataPoints
+  rw [List.zip_append h, List.map_append]
+
+/-- The hourly dew points and relative humidities of a design day have one value per hourly dry bulb. -/
+theorem C09_dd_hourly_lengths (m : ℝ) (hourly : List ℝ) :
+    (ddHourlyDewPoint m hourly).length = hourly.length ∧ (ddHourlyRelHumid m hourly).length = hourly.length := by
+  unfold ddHourlyRelHumid ddHourlyDewPoint
+  simp
+
+/-- non-vacuity: a state 30 degrees below the chart's minimum keeps its entry, left of the chart's base point -/
+example : ((⟨0, 0, 1, 1500, -20, 101325, false⟩ : Chart ℝ).dataPoints [20, -50, 21] [50, 50, 50]).length = 3 ∧
+    (((⟨0, 0, 1, 1500, -20, 101325, false⟩ : Chart ℝ).dataPoints [20, -50, 21] [50, 50, 50]).map Prod.fst)
+      = [40, -30, 41] := by
+  constructor
+  · rfl
+  · simp [Chart.dataPoints, Chart.dataPoint, Chart.tX]
+    norm_num
+
 end Psychro
